@@ -81,7 +81,7 @@ class Res(object):
     def pack(self):
         return {'states': self.states, 'transitions': self.transitions, 'traces': self.traces,
                 'outcomes': dict(self.outcomes), 'violations': self.violations, 'rejected': self.rejected,
-                'samples': self.samples[:3], 'dims': {k: sorted(v, key=str) for k, v in self.dims.items()},
+                'samples': self.samples[-3:], 'dims': {k: sorted(v, key=str) for k, v in self.dims.items()},
                 'caps': self.caps, 'extra': self.extra, 'state_keys': self.state_keys}
 
 
@@ -231,8 +231,7 @@ def run_property(pid, tier, seed, jobs=None, max_report=40):
                     extra[k] = extra.get(k, 0) + v
                 else:
                     extra.setdefault(k, v)
-            if len(samples) < 6:
-                samples += d['samples'][:2]
+            samples += d['samples'][-2:]
             violations += d['violations']
     # ---- triage violations
     known = load_known()
@@ -288,7 +287,9 @@ def run_property(pid, tier, seed, jobs=None, max_report=40):
         # every case is executed directly on the implementation: when a check does not count paths separately, one case = one execution
         'traces_validated_against_impl': agg['traces'] or max(agg['states'], 0),
         'evaluations': agg['transitions'], 'distinct_nontrivial': agg['states'],
-        'rule': prop.RULE, 'samples': samples[:6] or ['(none)'],
+        # the most detailed of the cases written out by the units (bounded in size), so that a reader sees what a case looks like
+        'rule': prop.RULE, 'samples': sorted([x for x in samples if len(json.dumps(x, default=str)) <= 1500],
+                                             key=lambda x: -len(json.dumps(x, default=str)))[:6] or samples[:2] or ['(none)'],
         'exhaustive': not caps, 'caps_hit': caps,
         'distinct_outcomes': n_out, 'outcomes': dict(outcomes), 'inputs_rejected_by_pgpy': agg['rejected'],
         'states_per_check': dict(per_check), 'dimensions': {k: sorted(v, key=str)[:64] for k, v in dims.items()},
